@@ -304,7 +304,7 @@ func (u *Unit) tryInlineLitCallStmt(st *State, call *ast.CallExpr, c *Ctl, k fun
 // execLit runs a function literal body inline with its own frame.
 func (u *Unit) execLit(st *State, lit *ast.FuncLit, args []Value, pos token.Pos, k func(*State, []Value)) {
 	info := u.pkg.TypesInfo
-	fr := &Frame{isLit: true, fn: lit.Type}
+	fr := &Frame{isLit: true, fn: lit.Type, panicAtEntry: st.panicking}
 	i := 0
 	for _, fld := range lit.Type.Params.List {
 		for _, n := range fld.Names {
@@ -1166,8 +1166,9 @@ func (u *Unit) selectStmt(st *State, x *ast.SelectStmt, c *Ctl, k func(*State)) 
 			if ue != nil {
 				ch := ev.expr(ue.X)
 				l := app("select", u.fam(st, "CH:len", as), ch.T)
-				// ready if buffered data, or closed / partner (unknown)
-				ready = or(app(">", l, "0"), u.fresh("partner", SBool))
+				cp := app("select", u.fam(st, "CH:cap", as), ch.T)
+				// buffered: ready iff data is queued (closing is not modelled); unbuffered: depends on a partner (unknown)
+				ready = app("ite", app(">", cp, "0"), app(">", l, "0"), u.fresh("partner", SBool))
 			}
 		}
 		readies = append(readies, ready)
@@ -1266,6 +1267,9 @@ func (u *Unit) deferStmt(st *State, x *ast.DeferStmt) {
 }
 
 func (u *Unit) returnStmt(st *State, x *ast.ReturnStmt, c *Ctl) {
+	if k, ok := u.retOrd[x]; ok {
+		u.ghostAt(st, fmt.Sprintf("return#%d", k), x.Pos())
+	}
 	ev := u.ev(st, x.Pos())
 	var vals []Value
 	fr := st.top()
@@ -1397,7 +1401,7 @@ func (u *Unit) deferredCall1(ev *Ev, d Deferred, k func(*State)) {
 				if n, ok := rt.(*types.Named); ok {
 					tn = n.Obj().Name()
 				}
-				if tn == "Mutex" || tn == "RWMutex" {
+				if tn == "Mutex" || tn == "RWMutex" || tn == "Locker" {
 					u.lockOp(ev, sel.X, f.Name(), x)
 					return
 				}
@@ -1472,7 +1476,7 @@ func (u *Unit) finishFrame(st *State) {
 	fr := st.top()
 	if len(st.frames) > 1 {
 		st.frames = st.frames[:len(st.frames)-1]
-		if st.panicking {
+		if st.panicking && !fr.panicAtEntry {
 			// propagate into the caller frame
 			u.runDefers(st)
 			return
